@@ -118,6 +118,7 @@ std::vector<uint8_t> encode_vec_as(const T& x, char order)
 }
 
 template <class T> void overfill(T&);
+template <class T> void outgrow(T&);
 
 template <class T>
 void run_case(const char* id, char op, char order, const std::vector<uint8_t>& in)
@@ -139,6 +140,7 @@ void run_case(const char* id, char op, char order, const std::vector<uint8_t>& i
         return;
     }
     if (op == 'O') overfill(x);
+    if (op == 'P') outgrow(x);     // vectors counted by a one-byte sizer grown to 256 elements
     size_t gbs = x.get_byte_size();
     printf("G %s gbs=%zu\n", id, gbs);
     fflush(stdout);
